@@ -494,7 +494,8 @@ pub fn gen_ops(rng: &mut Rng, p: &Profile, nk: usize, contents: &[ContentSpec], 
                     }
                     ops.push(Op::ReopenWrongN { n: n2 });
                 }
-                1 => ops.push(Op::ReopenWrongVersion { v: *rng.pick(&[0u64, 1, 3, 5, 4_294_967_295]) }),
+                // (0xffff_fffe = exec::TORN_SETTINGS: the settings file cut short + another segment size)
+                1 => ops.push(Op::ReopenWrongVersion { v: *rng.pick(&[0u64, 1, 3, 5, 4_294_967_295, 0xffff_fffe, 0xffff_fffe]) }),
                 _ => ops.push(Op::ReopenFlipPreCreate),
             },
         }
